@@ -72,6 +72,7 @@ type VC struct {
 	curProps  []string
 	safeProps []string
 	noSafety  bool
+	typedPtrs bool
 	splitInfo string
 	entryEnv  *Env
 	sums      map[string][]*sumInst
